@@ -60,6 +60,7 @@ def programs():
     main = Func("main", [], VOID, [Decl(P("int"), "m", I(50)), Decl(P("int"), "n", I(60)), Echo(Call("bump", I(1))), Echo(Var("m")), Echo(Var("n"))])
     out.append(Program([f, main]))
     out += class_scope_programs()
+    out += call_site_programs()
     return out
 
 
@@ -111,4 +112,49 @@ def class_scope_programs():
         second = Func("second", [Param(INT, b)], INT, [Decl(C("G", [P("str")]), "g", New("G", S("s"), targs=[P("str")])), Ret(Bin("+", MCall(Var("g"), "tw"), Var(b)))])
         main = Func("main", [], VOID, [Echo(Call("first")), Echo(Call("second", I(1000)))])
         out.append(Program([first, second, main], [g]))
+    # a method whose local array / array parameter is named like an array field of its class (or of a base): element stores and
+    # reads go to the local, the field keeps its value, and the other way round through 'this.'
+    IA = A("int")
+    for names in (("data", "buf"), ("d0", "b0")):
+        d, b = names
+        store = Class("Store", "", [Field(IA, "data", Arr("int", [I(1), I(2), I(3)])), Field(IA, "buf", Arr("int", [I(7), I(8)]))],
+                      [Method("local", [], INT, [Decl(IA, d, Arr("int", [I(10), I(20), I(30)])), Expr(AAsg(d, I(0), I(99))), Echo(Idx(Var(d), I(0))),
+                                                 Echo(Idx(Fld(This(), "data"), I(0))), Ret(Bin("+", Idx(Var(d), I(0)), Idx(Fld(This(), "data"), I(0))))]),
+                       Method("param", [Param(IA, b)], INT, [Expr(AAsg(b, I(1), I(55))), Echo(Var(b)), Echo(Fld(This(), "buf")), Ret(Idx(Var(b), I(1)))]),
+                       Method("field", [], VOID, [Expr(AAsg("data", I(2), I(-4))), Expr(AAsg("buf", I(0), I(-5))), Echo(Var("data")), Echo(Var("buf"))])],
+                      [Ctor([Param(IA, d)], [Expr(AAsg(d, I(0), I(77))), Echo(Var(d)), Echo(Fld(This(), "data"))])], [])
+        sub = Class("Sub", "Store", [], [Method("inner", [], INT, [Decl(IA, b, Arr("int", [I(4), I(5)])), For(Decl(INT, "i", I(0)), Bin("<", Var("i"), I(2)), Asg("i", Bin("+", Var("i"), I(1))),
+                                                                      [Expr(AAsg(b, Var("i"), Bin("*", Idx(Var(b), Var("i")), I(10))))]),
+                                                                 Echo(Var(b)), Echo(Fld(This(), "buf")), Ret(Idx(Var(b), I(1)))])],
+                    [Ctor([Param(IA, "a")], [Super(Var("a"))])], [])
+        main = Func("main", [], VOID, [Decl(IA, "src", Arr("int", [I(6), I(6), I(6)])), Decl(C("Store"), "s", New("Store", Var("src"))), Echo(Var("src")),
+                                       Echo(MCall(Var("s"), "local")), Echo(MCall(Var("s"), "param", Var("src"))), Echo(Var("src")),
+                                       Expr(MCall(Var("s"), "field")), Echo(MCall(Var("s"), "local")),
+                                       Decl(C("Sub"), "t", New("Sub", Var("src"))), Echo(MCall(Var("t"), "inner")), Echo(MCall(Var("t"), "param", Var("src"))),
+                                       Expr(MCall(Var("t"), "field")), Echo(Fld(Var("t"), "data")), Echo(Fld(Var("s"), "buf"))])
+        out.append(Program([main], [store, sub]))
+    return out
+
+
+def call_site_programs():
+    """the same function / method / constructor called from call sites at different block-nesting depths of one caller, whose
+    enclosing scopes declare variables named like the callee's parameters and locals: a callee reads its own"""
+    out = []
+    INT = P("int")
+    for cn in (("i", "t", "k"), ("p0", "q0", "r0")):
+        a, b, c = cn
+        probe = Func("probe", [Param(INT, a)], INT, [Decl(INT, b, Bin("*", Var(a), I(2))), Block([Decl(INT, c, Bin("+", Var(b), Var(a))), Ret(Bin("+", Var(c), Var(a)))])])
+        acc = Class("Acc", "", [Field(INT, "sum", I(0))],
+                    [Method("add", [Param(INT, a)], INT, [Decl(INT, b, Bin("+", Var(a), I(1))), Expr(FAsg(This(), "sum", Bin("+", Var("sum"), Var(b)))), Ret(Var("sum"))])],
+                    [Ctor([Param(INT, c)], [Decl(INT, a, Bin("*", Var(c), I(3))), Expr(FAsg(This(), "sum", Var(a)))])], [])
+        def calls(n):
+            return [Echo(Call("probe", I(n))), Echo(MCall(Var("acc"), "add", I(n))), Decl(C("Acc"), "z%d" % n, New("Acc", I(n))), Echo(Fld(Var("z%d" % n), "sum"))]
+        body = [Decl(C("Acc"), "acc", New("Acc", I(1)))] + calls(1)
+        body += [For(Decl(INT, "i", I(5)), Bin("<", Var("i"), I(7)), Asg("i", Bin("+", Var("i"), I(1))),
+                     [Decl(INT, "t", I(100))] + calls(2) + [Block([Decl(INT, "k", I(50))] + calls(3) + [While(Bin("<", Var("k"), I(51)), [Decl(INT, "j", I(-9))] + calls(4) + [Expr(Asg("k", Bin("+", Var("k"), I(1))))])]), Echo(Var("t"))])]
+        body += [Block([Decl(INT, "t", I(31)), Block([Decl(INT, "i", I(32)), Block([Decl(INT, "k", I(33))] + calls(5))])])]
+        body += [If(Bin("==", I(1), I(1)), [Decl(INT, "k", I(60)), Decl(INT, "i", I(61)), Decl(INT, "t", I(62))] + calls(6))] + calls(7)
+        outer = Func("outer", [Param(INT, "t")], INT, [Decl(INT, "i", I(900)), Decl(INT, "r", Call("probe", Var("t"))), Block([Decl(INT, "k", I(800)), Expr(Asg("r", Bin("+", Var("r"), Call("probe", I(3)))))]), Ret(Var("r"))])
+        body += [Echo(Call("outer", I(4))), Block([Decl(INT, "i", I(1)), Block([Decl(INT, "t", I(2)), Echo(Call("outer", I(5)))])])]
+        out.append(Program([probe, outer, Func("main", [], VOID, body)], [acc]))
     return out
